@@ -438,7 +438,7 @@ func replay(in string) {
 	case "rec":
 		replayRecord, _ = c["record"].(string)
 		runRecords(&rng{s: 1}, "quick")
-	case "recfile":
+	case "recfile", "recmulti":
 		replayFault = c
 		runRecords(&rng{s: 1}, "quick")
 	}
@@ -454,6 +454,7 @@ func main() {
 	flag.IntVar(&skipUntil, "skip", 0, "")
 	flag.BoolVar(&careful, "careful", false, "")
 	flag.BoolVar(&childPreferIndex, "prefer", false, "")
+	flag.BoolVar(&childReuse, "reuse", false, "")
 	flag.Parse()
 	if *ch != "" {
 		child(*ch)
